@@ -45,7 +45,7 @@ fn val_tx(t: &ValTx, day: u32) -> Transaction {
 
 fn hostile_txs(h: &Hostile) -> Option<Vec<Transaction>> {
     let d = |s: &str| Decimal::from_str(s).ok();
-    let date = NaiveDate::parse_from_str(&h.date, "%Y-%m-%d").ok()?;
+    let date = match h.date.as_str() { "MAX" => NaiveDate::MAX, "MIN" => NaiveDate::MIN, s => NaiveDate::parse_from_str(s, "%Y-%m-%d").ok()? };
     let d0 = NaiveDate::from_ymd_opt(2024, 1, 15)?;
     let buy = Transaction { date: if date < d0 { date } else { d0 }, ticker: "AAA".into(), operation: Operation::Buy { amount: d(&h.q)?, price: gbp(d(&h.p)?), fees: gbp(Decimal::ONE) } };
     let (a, b) = (d(&h.second.a)?, d(&h.second.b)?);
